@@ -313,7 +313,7 @@ func (w *world) do(c octx, variant string, q reqSpec, s string) *httptest.Respon
 func ok2(rr *httptest.ResponseRecorder) bool { return rr.Code/100 == 2 }
 
 func (w *world) servedInvalid(c octx, variant, what, name string) {
-	w.viol("served-invalid-name/"+c.name,
+	w.viol("served-invalid-name/"+c.name+"/"+refReason(name),
 		fmt.Sprintf("%s although the name %q is invalid (%s)", what, name, refReason(name)), c.name+"/"+variant)
 }
 
